@@ -3,6 +3,8 @@
 payload:
   groups : [{'k': int, 'lazy': None | '*' | [alias...], 'files': [{'name', 'content', 'gz'}],
              'queries': [[alias, [q, ...]], ...]}]      one scratch barcode directory + one parser per group
+           a query is an observed string (lookup) or {'op': 'getitem'} (parser[alias]) or {'op': 'count'}
+           (getTargetCount(alias)); the history of an alias is run in the given order
   api    : [{'k': int, 'adds': [[barcode, index], ...], 'queries': [q...]}]   addBarcode + expand (demux --si path)
   circle : [[s, n], ...]                                hamming_circle(s, n, 'ACTGN')
   shipped: [{'dir': 'barcodes'|'indices', 'k', 'lazy', 'queries': [[alias, [q...]], ...]}]
@@ -15,6 +17,15 @@ def ask(parser, alias, qs):
     out = []
     for q in qs:
         try:
+            if isinstance(q, dict):
+                if q['op'] == 'getitem':            # parser[alias]  (__getitem__)
+                    m = parser[alias]
+                    out.append({'items': None if m is None else [[k, v] for k, v in m.items()]})
+                elif q['op'] == 'count':            # getTargetCount(alias)
+                    out.append({'count': list(parser.getTargetCount(alias))})
+                else:
+                    out.append({'error': 'unknown op %r' % (q,)})
+                continue
             r = parser.getIndexCorrectedBarcodeAndHammingDistance(q, alias)
             if r is None or (r[0] is None and r[1] is None and r[2] is None):
                 out.append(None)
